@@ -110,12 +110,19 @@ func (s *regSvc) Algorithm() string { return s.name }
 
 type notAService struct{ x int }
 
+// a service whose Algorithm() panics (a typed-nil pointer reading a field would): the caller
+// recovers; the registry must be usable afterwards
+type panickyService struct{}
+
+func (panickyService) Algorithm() string { panic("Algorithm() of a broken service") }
+
 const (
 	opRegistry = iota
 	opRegistryNonService
 	opGet
 	opRemove
 	opClear
+	opRegistryPanicky
 )
 
 type regOp struct {
@@ -137,6 +144,8 @@ func (o *regOp) String() string {
 		return fmt.Sprintf("Registry(svc#%d as %q) -> %v", o.ID, o.Name, o.OK)
 	case opRegistryNonService:
 		return fmt.Sprintf("Registry(non-service) -> %v", o.OK)
+	case opRegistryPanicky:
+		return "Registry(service whose Algorithm() panics; caller recovers)"
 	case opGet:
 		if o.OK {
 			return fmt.Sprintf("Get(%q) -> svc#%d(%q), true", o.Name, o.GotID, o.GotName)
@@ -206,6 +215,8 @@ var regModel = porcupine.Model{
 			return true, encodeRegState(st)
 		case opRegistryNonService:
 			return !out.OK, state
+		case opRegistryPanicky:
+			return true, state
 		case opGet:
 			id, exists := st[in.Name]
 			if exists {
@@ -332,8 +343,18 @@ func runC19(c *RunCtx) {
 			initial[n] = s.id
 		}
 	}
+	crowded := 0
+	if t.Intn(6) == 0 {
+		// a crowded registry: 6-12 further services registered before everything else, two of
+		// which the clients also operate on (small fixed-size tables with overflow areas)
+		crowded = 6 + t.Intn(7)
+		names = append([]string{"FILL_0", "FILL_1"}, names...)
+		if len(names) > 4 {
+			names = names[:4]
+		}
+	}
 	untouched := false
-	if t.Intn(4) == 0 {
+	if crowded == 0 && t.Intn(4) == 0 {
 		// the four built-in services as package init registered them (ids 1..4 by name)
 		untouched = true
 		names = []string{"CRC16", "CRC32", "SSE_BIN", "SZSE_BIN"}[:1+t.Intn(4)]
@@ -361,6 +382,9 @@ func runC19(c *RunCtx) {
 				op.Kind = opClear
 			default:
 				op.Kind = opRegistryNonService
+				if t.Intn(3) == 0 {
+					op.Kind = opRegistryPanicky
+				}
 			}
 			plans[ti] = append(plans[ti], op)
 			total++
@@ -371,6 +395,7 @@ func runC19(c *RunCtx) {
 	// (untouched) exactly as package init left it, so that the first modification of the process
 	// happens under concurrency; optionally after a long sequential churn of registrations and
 	// removals (counters and thresholds inside the registry)
+	var fillers []*regSvc
 	churn := 0
 	switch t.Intn(10) {
 	case 7:
@@ -388,6 +413,11 @@ func runC19(c *RunCtx) {
 	defer restoreBuiltins()
 	if !untouched {
 		codec.Clear()
+		for i := 0; i < crowded; i++ {
+			fs := &regSvc{name: fmt.Sprintf("FILL_%d", i), id: 50 + i}
+			codec.Registry(fs)
+			fillers = append(fillers, fs)
+		}
 		for _, s := range pre {
 			codec.Registry(s)
 		}
@@ -415,6 +445,11 @@ func runC19(c *RunCtx) {
 					op.OK = codec.Registry(svcs[op.ID])
 				case opRegistryNonService:
 					op.OK = codec.Registry(&notAService{1})
+				case opRegistryPanicky:
+					func() {
+						defer func() { recover() }()
+						codec.Registry(panickyService{})
+					}()
 				case opGet:
 					v, ok := codec.Get(op.Name)
 					op.OK = ok
@@ -511,6 +546,9 @@ func runC19(c *RunCtx) {
 	var full []porcupine.Operation
 	for i, s := range pre {
 		full = append(full, porcupine.Operation{ClientId: ntasks, Input: regInput{opRegistry, s.name, s.id}, Call: int64(-100 + 2*i), Output: regOutput{true, 0}, Return: int64(-99 + 2*i)})
+	}
+	for i, s := range fillers {
+		full = append(full, porcupine.Operation{ClientId: ntasks, Input: regInput{opRegistry, s.name, s.id}, Call: int64(-200 + 2*i), Output: regOutput{true, 0}, Return: int64(-199 + 2*i)})
 	}
 	if untouched {
 		for i, n := range []string{"CRC16", "CRC32", "SSE_BIN", "SZSE_BIN"} {
